@@ -464,7 +464,7 @@ pub fn run(run: &mut Run) {
     run.prop("elements_random", run.tier.pick(40_000, 1_500_000), s, elem_case);
     // larger samples: 200 random permutations of one multiset per size
     let seed = run.seed_for("elements_large", 0);
-    let sizes: Vec<usize> = run.tier.pick(vec![100, 1000], vec![100, 500, 1024, 1025, 5000, 20000, 100000]);
+    let sizes: Vec<usize> = run.tier.pick(vec![100, 1000, 1025, 2000], vec![100, 500, 1024, 1025, 1500, 3000, 4096, 5000, 20000, 100000]);
     let sizes_ref = &sizes;
     run.par(sizes.len(), |si, obs| {
         let n = sizes_ref[si];
@@ -489,6 +489,16 @@ pub fn run(run: &mut Run) {
             } else {
                 obs.nontrivial(&(n, rep, "large-perm"));
             }
+            if n > 1024 && n <= 4096 {
+                // capacities above DATA_CAP are legitimate choices of the const parameter
+                let got = call(|| quantile::ci_max_size::<i64, Vec<i64>, 4096>(conf.get(), &d, q));
+                obs.eval();
+                if !same(&got, &want) {
+                    let f = crate::engine::Fail { sig: "C03/ci_max_size/CAP=4096".into(), msg: format!("n={n}: shuffle #{rep} gives {} but the sorted data give {}", got.describe(), want.describe()) };
+                    obs.report("elements_large", || json!({"n": n, "rep": rep}), &f);
+                }
+                obs.class("ci_max_size/CAP=4096");
+            }
             if n <= 1024 {
                 let got = call(|| quantile::ci_max_size::<i64, Vec<i64>, 1024>(conf.get(), &d, q));
                 if !same(&got, &want) {
@@ -499,7 +509,7 @@ pub fn run(run: &mut Run) {
         }
         obs.class("elements/large-permutations");
     });
-    for c in ["ok/two/L<.9", "ok/upper/L<.5", "ok/lower/L>=.99", "rejected/InvalidQuantile", "rejected/TooFewSamples", "rejected/TooFewSuccesses", "rejected/TooFewFailures", "index/ok", "index/rejected/InvalidQuantile", "index/rejected/TooFewSamples", "ci_max_size/CAP=n", "ci_max_size/CAP=n+1", "ci_max_size/CAP=64", "ci_max_size/CAP=1024", "elements/str/permuted", "elements/f64/permuted", "elements/char/permuted"] {
+    for c in ["ok/two/L<.9", "ok/upper/L<.5", "ok/lower/L>=.99", "rejected/InvalidQuantile", "rejected/TooFewSamples", "rejected/TooFewSuccesses", "rejected/TooFewFailures", "index/ok", "index/rejected/InvalidQuantile", "index/rejected/TooFewSamples", "ci_max_size/CAP=n", "ci_max_size/CAP=n+1", "ci_max_size/CAP=64", "ci_max_size/CAP=1024", "ci_max_size/CAP=4096", "elements/str/permuted", "elements/f64/permuted", "elements/char/permuted"] {
         run.require_class(c);
     }
     run.assumptions.push("a rank floor(p n) is ambiguous when p n lies within 1e-9 max(1,n) of an integer (the reference p differs from the crate's by up to 1e-13); round(q n) is ambiguous only when rounding the exact product and rounding the correctly rounded f64 product disagree; either neighbour is accepted and the case is counted".into());
